@@ -181,6 +181,9 @@ class C05Adaptive(Harness):
             if tier == "quick" and n1 + n2 > 3:
                 continue
             yield f"adapt-{n1}-{n2}", dict(n=[n1, n2], shift=(n1 + n2) % 2 == 1)
+        # operands that carry underflow / overflow: the sum is refused or accounts for all of it (nothing is dropped silently)
+        for n1, n2 in ((1, 1), (2, 1), (1, 2)):
+            yield f"adapt-{n1}-{n2}-missed", dict(n=[n1, n2], shift=False, missed=True)
 
     def declare(self, cx, p):
         x = {"w": cx.pyfloat("w"), "t": [cx.pyint(f"t{i}", -3, 3) for i in range(2)],
@@ -188,6 +191,8 @@ class C05Adaptive(Harness):
              "q": [declare_cells(cx, f"{'ab'[i]}q", [p["n"][i]], "int") for i in range(2)]}
         if p["shift"]:
             x["s"] = cx.pyfloat("s")
+        if p.get("missed"):
+            x["uo"] = [[cx.int(f"{'ab'[i]}u", 0, 9), cx.int(f"{'ab'[i]}o", 0, 9)] for i in range(2)]
         # value statistics of both operands (sum, sum2, min, max, weight): merged by an addition on a grown grid as on equal bins
         x["st"] = [[cx.pyfloat(f"{'ab'[i]}s{k}") for k in STAT_KEYS] for i in range(2)]
         if cx.sym:
@@ -213,7 +218,8 @@ class C05Adaptive(Harness):
         b = FWB(**kw)
         St = E.mod("physt.statistics").Statistics
         st = x["st"][i]
-        return H1(b, np.asarray(x["f"][i], dtype=int), np.asarray(x["q"][i], dtype=int), stats=St(sum=st[0], sum2=st[1], min=st[2], max=st[3], weight=st[4]))
+        mkw = dict(underflow=x["uo"][i][0], overflow=x["uo"][i][1]) if p.get("missed") else {}
+        return H1(b, np.asarray(x["f"][i], dtype=int), np.asarray(x["q"][i], dtype=int), stats=St(sum=st[0], sum2=st[1], min=st[2], max=st[3], weight=st[4]), **mkw)
 
     def drive(self, E, p, x):
         a, b = self._mk(E, p, x, 0), self._mk(E, p, x, 1)
@@ -238,7 +244,14 @@ class C05Adaptive(Harness):
         Q = [[cx.t(v) for v in x["q"][i]] for i in range(2)]
         for key in ("r1", "r2"):
             r = obs[key]
-            yield f"{key}_no_exception", "raised" not in r
+            if p.get("missed"):
+                if "raised" in r:
+                    yield f"{key}_refusal_kind", r["raised"].name == "ValueError"
+                    continue
+                UO = [[cx.t(v) for v in uo] for uo in x["uo"]]
+                yield f"{key}_missed_accounted", z3.And(cx.eq(r["under"], UO[0][0] + UO[1][0]), cx.eq(r["over"], UO[0][1] + UO[1][1]))
+            else:
+                yield f"{key}_no_exception", "raised" not in r
             if "raised" in r:
                 continue
             S = [[cx.t(v) for v in st] for st in x["st"]]
@@ -262,7 +275,8 @@ class C05Adaptive(Harness):
                 yield f"{key}_content[{k}]", cx.eq(r["freq"][k], ref)
                 yield f"{key}_err2[{k}]", cx.eq(r["err2"][k], ref2)
             yield f"{key}_total", cx.eq(r["total"], zsum(v for i in range(2) for v in F[i]))
-            yield f"{key}_missed_zero", z3.And(cx.eq(r["under"], 0), cx.eq(r["over"], 0))
+            if not p.get("missed"):
+                yield f"{key}_missed_zero", z3.And(cx.eq(r["under"], 0), cx.eq(r["over"], 0))
         for i in range(2):
             a = obs["after"][i]
             yield f"operand_unchanged[{i}]", z3.And([z3.BoolVal(len(a["freq"]) == n[i])] + [cx.eq(a["freq"][j], F[i][j]) for j in range(min(n[i], len(a["freq"])))]
@@ -331,6 +345,14 @@ class C05Adaptive2D(Harness):
             yield f"operand_unchanged[{i}]", z3.And([z3.BoolVal(ok)] + ([cx.eq(getcell(a["freq"], idx), F[i][idx]) for idx in F[i]] + [cx.t(a["bins"][k][0][0]) == t[i][k] * self.W[k] for k in range(2)] if ok else []))
 
 
+def _exact(v):
+    """A binary64 constant as the exact rational z3 value (z3 would read the decimal repr otherwise)."""
+    from fractions import Fraction
+
+    fr = Fraction(v)
+    return z3.Q(fr.numerator, fr.denominator)
+
+
 @register
 class C05GridMismatch(Harness):
     prop = "C05"
@@ -345,14 +367,22 @@ class C05GridMismatch(Harness):
                 if tier == "quick" and n1 and n2 and (n1, n2) not in ((1, 2), (1, 1), (2, 2)):
                     continue
                 yield f"grid-{kind}-{n1}-{n2}", dict(kind=kind, n=[n1, n2])
+        # widths that differ by 3.8e-6 relative (1 vs 1 + 2^-18) (inside the default tolerance of np.isclose, but a different grid all the same); different offsets
+        for n1, n2 in ((1, 1), (2, 1), (1, 2)):
+            yield f"grid-width_close-{n1}-{n2}", dict(kind="width_close", n=[n1, n2])
 
     def declare(self, cx, p):
-        return {"t": [cx.pyint(f"t{i}", -3, 3) for i in range(2)],
-                "f": [declare_cells(cx, f"{'ab'[i]}f", [p["n"][i]], "int") for i in range(2)]}
+        x = {"t": [cx.pyint(f"t{i}", -3, 3) for i in range(2)],
+             "f": [declare_cells(cx, f"{'ab'[i]}f", [p["n"][i]], "int") for i in range(2)]}
+        if cx.sym and p["kind"] == "width_close":
+            cx.assume(cx.t(x["t"][0]) != cx.t(x["t"][1]))
+        return x
 
     def _grid(self, p, i):
         if p["kind"] == "width":
             return (1.0, 0.0) if i == 0 else (2.0, 0.0)
+        if p["kind"] == "width_close":
+            return (1.0, 0.0) if i == 0 else (1.0 + 2.0 ** -18, 0.0)   # 1.0000038...: exact in binary64
         return (1.0, 0.0) if i == 0 else (1.0, 0.5)
 
     def _mk(self, E, p, x, i):
@@ -383,7 +413,7 @@ class C05GridMismatch(Harness):
         F = [[cx.t(v) for v in x["f"][i]] for i in range(2)]
         opbins = []
         for i in range(2):
-            w, sh = self._grid(p, i)
+            w, sh = (_exact(v) for v in self._grid(p, i))
             for j in range(n[i]):
                 opbins.append(((t[i] + j) * w + sh, (t[i] + j + 1) * w + sh, F[i][j]))
         for key in ("r1", "r2", "r3"):
@@ -400,7 +430,7 @@ class C05GridMismatch(Harness):
             yield f"{key}_refused_or_exact_union", z3.And(conj)
         for i in range(2):
             a = obs["after"][i]
-            w, sh = self._grid(p, i)
+            w, sh = (_exact(v) for v in self._grid(p, i))
             yield f"operand_unchanged[{i}]", z3.And([z3.BoolVal(len(a["freq"]) == n[i])] + [cx.eq(a["freq"][j], F[i][j]) for j in range(min(n[i], len(a["freq"])))]
                                                    + [cx.t(a["bins"][j][0]) == (t[i] + j) * w + sh for j in range(min(n[i], len(a["freq"])))])
 
